@@ -417,4 +417,78 @@ theorem box_bottomCenterNormal {c : Corners K} {x0 dx y0 dy z0 dz : K} (h : IsBo
 
 end BoxNormal
 
+/-! ## isValidCellGeomtry -/
+
+section ValidProofs
+variable {K : Type} [LinearOrder K] [Sub K]
+
+theorem lt_max4_iff (m a b c e : K) : m < max4 a b c e ↔ m < a ∨ m < b ∨ m < c ∨ m < e := by
+  unfold max4
+  constructor
+  · intro h
+    have key' : ∀ x y : K, m < (if x < y then y else x) → m < x ∨ m < y := by
+      intro x y hxy
+      split_ifs at hxy
+      · exact Or.inr hxy
+      · exact Or.inl hxy
+    rcases key' _ _ h with h | h
+    · rcases key' _ _ h with h | h
+      · rcases key' _ _ h with h | h
+        · exact Or.inl h
+        · exact Or.inr (Or.inl h)
+      · exact Or.inr (Or.inr (Or.inl h))
+    · exact Or.inr (Or.inr (Or.inr h))
+  · intro h
+    have key : ∀ x y : K, m < x ∨ m < y → m < (if x < y then y else x) := by
+      intro x y hxy
+      split_ifs with hlt
+      · rcases hxy with hx | hy
+        · exact lt_trans hx hlt
+        · exact hy
+      · rcases hxy with hx | hy
+        · exact hx
+        · exact lt_of_lt_of_le hy (not_lt.mp hlt)
+    rcases h with h | h | h | h
+    · exact key _ _ (Or.inl (key _ _ (Or.inl (key _ _ (Or.inl h)))))
+    · exact key _ _ (Or.inl (key _ _ (Or.inl (key _ _ (Or.inr h)))))
+    · exact key _ _ (Or.inl (key _ _ (Or.inr h)))
+    · exact key _ _ (Or.inr h)
+
+/-- `isValidCellGeomtry` = every corner coordinate is below the threshold in absolute value and at
+least one of the four vertical edges is longer than `minSep`. -/
+theorem isValidCellGeometry_iff (abs : K → K) (thr minSep : K) (c : Corners K) :
+    isValidCellGeometry abs thr minSep c = true ↔
+      ((∀ n, n < 8 → abs (c.X n) < thr ∧ abs (c.Y n) < thr ∧ abs (c.Z n) < thr) ∧
+       ∃ n, n < 4 ∧ minSep < c.Z (n + 4) - c.Z n) := by
+  unfold isValidCellGeometry
+  dsimp only
+  constructor
+  · intro h
+    split_ifs at h with hf
+    · simp only [Bool.and_eq_true, List.all_eq_true, List.mem_range, decide_eq_true_eq] at hf
+      refine ⟨fun n hn => ⟨hf.1.1 n hn, hf.1.2 n hn, hf.2 n hn⟩, ?_⟩
+      have := (lt_max4_iff _ _ _ _ _).1 (of_decide_eq_true h)
+      rcases this with h | h | h | h
+      · exact ⟨0, by omega, h⟩
+      · exact ⟨1, by omega, h⟩
+      · exact ⟨2, by omega, h⟩
+      · exact ⟨3, by omega, h⟩
+  · rintro ⟨hf, n, hn, hs⟩
+    have hfin : (((List.range 8).all fun n => decide (abs (c.X n) < thr)) &&
+        ((List.range 8).all fun n => decide (abs (c.Y n) < thr)) &&
+        ((List.range 8).all fun n => decide (abs (c.Z n) < thr))) = true := by
+      simp only [Bool.and_eq_true, List.all_eq_true, List.mem_range, decide_eq_true_eq]
+      exact ⟨⟨fun n hn => (hf n hn).1, fun n hn => (hf n hn).2.1⟩, fun n hn => (hf n hn).2.2⟩
+    rw [if_pos hfin]
+    apply decide_eq_true
+    rw [lt_max4_iff]
+    have : n = 0 ∨ n = 1 ∨ n = 2 ∨ n = 3 := by omega
+    rcases this with rfl | rfl | rfl | rfl
+    · exact Or.inl hs
+    · exact Or.inr (Or.inl hs)
+    · exact Or.inr (Or.inr (Or.inl hs))
+    · exact Or.inr (Or.inr (Or.inr hs))
+
+end ValidProofs
+
 end OpmVerif.GridTops
